@@ -655,6 +655,53 @@ def r15_imports_declared(c, facts, rule='C08.R15'):
     c.bad(R, 'resolve:declare_import-not-called', 'resolve() no longer calls declare_import')
 
 
+def r17_name_keyed_state(c, facts, rule='C08.R17'):
+    """an identifier names a declaration within one module only: state the evaluator keeps for the whole run (a field of
+    eval::Context that outlives a scope) and keys by the bare identifier hands the first declaration's state to every
+    same-named declaration of another module. Scopes are keyed by name, but live inside the stack of one application."""
+    R = c.rule(rule, 'NAME-KEYED-STATE: no run-wide table of the evaluator is keyed by a bare identifier (one known finding: `refs`)')
+    adt = facts.adt('oal_compiler::eval::Context')
+    if not adt or not adt.get('variants'):
+        c.bad(R, 'anchor-missing:eval::Context', 'type oal_compiler::eval::Context not found')
+        return
+    n = 0
+    for name, ty in adt['variants'][0]['fields']:
+        n += 1
+        keyed = re.match(r'^(?:std::rc::Rc<|std::cell::RefCell<|std::boxed::Box<)*(?:[\w:]*::)?(IndexMap|HashMap|BTreeMap|IndexSet|HashSet|BTreeSet)<(?:&\S* )?oal_syntax::atom::Ident\b', ty)
+        inst = {'field': name, 'type': ty[:120]}
+        if not keyed:
+            c.ok(R, inst)
+        else:
+            c.bad(R, 'context-table-keyed-by-name:' + name, 'eval::Context.%s is a run-wide table keyed by the bare identifier: two declarations of the same name in two modules share one entry, the second evaluated gets what belongs to the first' % name, **inst)
+    c.floor(R, 'fields of eval::Context', n, 4)
+
+
+def r18_clash_same_scope(c, facts, rule='C08.R18'):
+    """a name may be declared again in an inner scope (a parameter or rec binder shadows a declaration, an import, a
+    built-in): "identifier already exists" is raised for a clash within one scope only, which is what Env::declare
+    reports by handing back the previous definition. An InvalidIdentifier error reachable in the resolver without a
+    preceding Env::declare was decided on something else (a lookup sees every enclosing scope)."""
+    R = c.rule(rule, 'CLASH-SAME-SCOPE: the resolver raises "identifier already exists" only behind Env::declare (a clash within one scope); shadowing an outer name is never an error')
+    n = 0
+    for q, l in sorted(facts.by_qname.items()):
+        if not q.startswith('oal_compiler::resolve::') or l[0].kind == 'Closure' or not l[0].mir or q not in (facts.known_fns_or_aliases() if hasattr(facts, 'known_fns_or_aliases') else [q]):
+            continue
+        fn = facts.normalised(l[0])
+        errs = [b for b, blk in fn.blocks() for st in blk['stmts'] if st['s'] == 'assign' and st['rv']['r'] == 'aggr' and st['rv'].get('adt', '').endswith('errors::Kind') and st['rv'].get('variant') == 'InvalidIdentifier']
+        if not errs:
+            continue
+        decl = [b for b, t in P.call_blocks(fn, 'env::Env::declare')]
+        free = fn.reachable_from(0, avoid=decl)
+        for b in errs:
+            n += 1
+            inst = {'fn': q, 'block': b}
+            if b in free:
+                c.bad(R, 'clash-without-declare:' + q.split('::')[-1], '%s raises "identifier already exists" on a path that has not asked Env::declare: the verdict comes from something that sees the enclosing scopes too, so a binder that shadows a declaration, an imported name or a built-in is rejected' % q, **inst)
+            else:
+                c.ok(R, inst)
+    c.floor(R, 'sites raising InvalidIdentifier in the resolver', n, 2)
+
+
 def r14_same_winner(c, facts, rule='C08.R14'):
     """two binders of one name in one scope (`let pick x x = x`): the resolver and the evaluator must agree on which one
     a use denotes - both tables are written by a plain insert (the later binder replaces the earlier one)"""
@@ -680,6 +727,8 @@ def run(c, facts):
     c.shared(R16, _c10.r6_complete, 'C10.R6', facts)
     c.run(r15_imports_declared, facts)
     c.run(r14_same_winner, facts)
+    c.run(r18_clash_same_scope, facts)
+    c.run(r17_name_keyed_state, facts)
     c.run(r13_lexical_eval, facts)
     import c10
     import c09
